@@ -154,4 +154,17 @@ example :
   refine ⟨helloBody [117] [112], [117], [112], rfl, ?_, rfl, rfl⟩
   decide
 
+/-- the credential check of the PLAIN server has the shape the model gives it (re-extracted from the source on every run):
+a credential that was never configured matches nothing -/
+theorem plain_source_shape : Gen.plainUnsetCredentialAdmitsNobody = 1 := by decide
+
+/-- a PLAIN server on which a credential was left unset admits nobody: no HELLO is valid for it, not even the one with the
+empty name and the empty password -/
+theorem unset_credential_admits_nobody (cfg : Cfg) (h : cfg.plainUser = none ∨ cfg.plainPass = none) (tok : Bytes) :
+    ¬ IsValidHello cfg tok := by
+  rintro ⟨_, u, p, _, _, hu, hp⟩
+  rcases h with h | h
+  · rw [h] at hu; cases hu
+  · rw [h] at hp; cases hp
+
 end Rzmq.C06
